@@ -80,6 +80,7 @@ type replayOutcome struct {
 	Ran     bool
 	Fails   []string
 	Escaped string
+	Logs    []string
 }
 
 func cmdCheck(args []string) {
@@ -221,7 +222,14 @@ func cmdCheck(args []string) {
 		for i := range res.Violations {
 			v := &res.Violations[i]
 			k := v.Tag + "@" + v.Site
-			if perTag[k] >= 3 {
+			// distinguish by the leading verifChoose values (harness case split)
+			for i, kd := range v.Kinds {
+				if kd != "int" || i >= 2 {
+					break
+				}
+				k += fmt.Sprintf("/%d", v.Vector[i])
+			}
+			if perTag[k] >= 2 || len(cases) >= 80 {
 				continue
 			}
 			perTag[k]++
@@ -298,6 +306,9 @@ func cmdCheck(args []string) {
 				copyFile(c.File, dst)
 				fmt.Printf("VIOLATION property=%s replay=%s\n", id, dst)
 				fmt.Printf("  harness=%s assertion=%q site=%s inputs=%s native=%v %s\n", c.V.Harness, c.V.Tag, c.V.Site, vecString(c.V), c.Outcome.Fails, c.Outcome.Escaped)
+				for _, l := range c.Outcome.Logs {
+					fmt.Printf("    log: %s\n", l)
+				}
 			} else {
 				fmt.Printf("ENGINE-MISMATCH property=%s harness=%s tag=%q: solver counterexample %s did not reproduce natively (fails=%v)\n", id, c.V.Harness, c.V.Tag, vecString(c.V), c.Outcome.Fails)
 				mismatches++
@@ -327,6 +338,9 @@ func cmdCheck(args []string) {
 			he.Inconclusive = append(he.Inconclusive, fmt.Sprintf("%s x%d", k, r.Inconclusive[k]))
 			fmt.Printf("INCONCLUSIVE property=%s harness=%s reason=%q count=%d\n", id, r.Name, k, r.Inconclusive[k])
 			inconclusive++
+		}
+		for _, k := range sortedKeys(r.Cuts) {
+			he.Cuts = append(he.Cuts, fmt.Sprintf("%s x%d", k, r.Cuts[k]))
 		}
 		ev.Coverage.Harnesses[r.Name] = he
 		ev.Coverage.States += r.Paths
@@ -461,6 +475,7 @@ type HarnessEvidence struct {
 	Candidates   int            `json:"candidate_counterexamples"`
 	KnownHits    []string       `json:"known_finding_hits,omitempty"`
 	Inconclusive []string       `json:"inconclusive,omitempty"`
+	Cuts         []string       `json:"cuts_outside_the_claim,omitempty"`
 	VacuityTwin  string         `json:"vacuity_twin"`
 }
 
@@ -617,6 +632,9 @@ func runReplay(lp *loaded, repo, verif, dir string, cases []*replayCase) error {
 			continue
 		}
 		fails, escaped := verifRunHarness(name, h)
+		for _, l := range verifRS.Logs {
+			fmt.Printf("REPLAYLOG %s %s\n", filepath.Base(f), l)
+		}
 		fmt.Printf("REPLAY %s fails=%q escaped=%q\n", filepath.Base(f), fails, fmt.Sprint(escaped))
 	}
 }
@@ -656,6 +674,11 @@ func runReplay(lp *loaded, repo, verif, dir string, cases []*replayCase) error {
 				o.Escaped = m[3]
 			}
 			found[m[1]] = o
+		}
+		for _, m := range regexp.MustCompile(`(?m)^REPLAYLOG (\S+) (.*)$`).FindAllStringSubmatch(string(out), -1) {
+			if o := found[m[1]]; o != nil {
+				o.Logs = append(o.Logs, m[2])
+			}
 		}
 		for _, c := range cs {
 			c.Outcome = found[filepath.Base(c.File)]
